@@ -665,4 +665,13 @@ def rule_genpub(ctx):
     rule_failure_stops_delivery_first(ctx, 'C07.e')
 
 
-RULES = [('C06.a', rule_a), ('C06.b', rule_b), ('C06.c', rule_c), ('C06.a', rule_g), ('C06.d', rule_e), ('C06.e+C20.g+C20.i+C20.k', rule_f), ('C07.e', rule_genpub), ('C05.a+C05.b+C14.f+C03.c', rule_d)]
+
+def rule_builders_fresh(ctx):
+    """C05.h  The credit a REQUEST_N frame carries is the credit of the request() call that queued it: frames wait in
+    the send queue as objects, so no frame kept in an attribute or shared by a builder is queued twice
+    (rules/plumbing.py)."""
+    from .plumbing import rule_builders_fresh as rb
+    rb(ctx, 'C05.h')
+
+
+RULES = [('C06.a', rule_a), ('C06.b', rule_b), ('C06.c', rule_c), ('C06.a', rule_g), ('C06.d', rule_e), ('C06.e+C20.g+C20.i+C20.k', rule_f), ('C07.e', rule_genpub), ('C05.a+C05.b+C14.f+C03.c', rule_d), ('C05.h', rule_builders_fresh)]
